@@ -36,6 +36,25 @@ MUTANTS = [
     {"id": "c08-fixed-len-returns-self", "expect": "fire", "edits": [(C, "        return type(self)(self)  # a copy: the result must not alias self", "        return self")]},
     # neutral
     {"id": "c08-line-buffer-cleared-in-place", "expect": "fire", "edits": [(P, "                yield CHText.make(line_chunks)\n                line_chunks = []", "                yield CHText.make(line_chunks)\n                line_chunks.clear()")]},
+    # ---- arithmetic of index / slice / fixed_len / format (R08h)
+    {"id": "c08-a-start-not-clamped", "expect": "fire", "edits": [(C, "            start_pos = max(0, self.scrlen + start_pos)", "            start_pos = self.scrlen + start_pos")]},
+    {"id": "c08-a-n-end-not-clamped", "expect": "silent", "edits": [(C, "            end_pos = max(0, self.scrlen + end_pos)", "            end_pos = self.scrlen + end_pos")]},
+    {"id": "c08-a-last-piece-short", "expect": "fire", "edits": [(C, "new_chunks.append(cur_chunk.clone(cur_chunk.text[:remain_len]))", "new_chunks.append(cur_chunk.clone(cur_chunk.text[:remain_len - 1]))")]},
+    {"id": "c08-a-n-strict-last-test", "expect": "silent", "edits": [(C, "            if remain_len <= len(cur_chunk.text):", "            if remain_len < len(cur_chunk.text):")]},
+    {"id": "c08-a-remain-not-reduced", "expect": "fire", "edits": [(C, "            remain_len -= len(cur_chunk.text)\n", "")]},
+    {"id": "c08-a-negative-index-off-by-one", "expect": "fire", "edits": [(C, "                index = self.scrlen + index", "                index = self.scrlen + index - 1")]},
+    {"id": "c08-a-chunk-pos-inclusive", "expect": "fire", "edits": [(C, "            if position < len(chunk.text):\n                return chunk_id, position", "            if position <= len(chunk.text):\n                return chunk_id, position")]},
+    {"id": "c08-a-negative-position-accepted", "expect": "fire", "edits": [(C, "        if position < 0:\n            return None, None\n", "")]},
+    {"id": "c08-a-fixed-len-pad-plus-one", "expect": "fire", "edits": [(C, '            return self + " "*len_diff', '            return self + " "*(len_diff + 1)')]},
+    {"id": "c08-a-fixed-len-cut-plus-one", "expect": "fire", "edits": [(C, "            return self[:desired_len]", "            return self[:desired_len + 1]")]},
+    {"id": "c08-a-center-rounds-up", "expect": "fire", "edits": [(C, "            prefix_width = filler_width // 2", "            prefix_width = (filler_width + 1) // 2")]},
+    {"id": "c08-a-center-suffix-half", "expect": "fire", "edits": [(C, "            suffix_width = filler_width - prefix_width", "            suffix_width = filler_width // 2")]},
+    {"id": "c08-a-align-swapped", "expect": "fire", "edits": [(C, "        elif align_char == '<':\n            return str(self) + filler_ch*filler_width", "        elif align_char == '>':\n            return str(self) + filler_ch*filler_width"), (C, "        elif align_char == '>':\n            return filler_ch*filler_width + str(self)", "        elif align_char == '<':\n            return filler_ch*filler_width + str(self)")]},
+    {"id": "c08-a-first-piece-skips-char", "expect": "fire", "edits": [(C, "        cur_chunk = cur_chunk.clone(cur_chunk.text[chunk_pos:])", "        cur_chunk = cur_chunk.clone(cur_chunk.text[chunk_pos + 1:])")]},
+    {"id": "c08-a-chunk-not-advanced", "expect": "fire", "edits": [(C, "            chunk_id += 1\n            if chunk_id < len(self.chunks):", "            if chunk_id < len(self.chunks):")]},
+    {"id": "c08-a-n-empty-test-lt-one", "expect": "silent", "edits": [(C, "        if remain_len <= 0:\n            return type(self)()", "        if remain_len < 1:\n            return type(self)()")]},
+    {"id": "c08-a-stop-defaults-to-len-minus-one", "expect": "fire", "edits": [(C, "        if end_pos is None:\n            end_pos = self.scrlen", "        if end_pos is None:\n            end_pos = self.scrlen - 1")]},
+    {"id": "c08-a-width-minus-len-plus-one", "expect": "fire", "edits": [(C, "        filler_width = max(width - self.scrlen, 0)", "        filler_width = max(width - self.scrlen + 1, 0)")]},
     {"id": "c08-n-tuple-copy", "expect": "silent", "edits": [(C, "            for part in list(other.chunks):", "            for part in tuple(other.chunks):")]},
     {"id": "c08-n-guarded-alias", "expect": "silent", "edits": [(C, "            for part in list(other.chunks):\n                self._append_chunk(part)", "            parts = other.chunks[:]\n            for part in parts:\n                self._append_chunk(part)")]},
     {"id": "c08-n-calc-len", "expect": "silent", "edits": [(C, "        result.scrlen = sum(len(c.text) for c in chunks_list)", "        result.scrlen = cls.calc_chunks_len(chunks_list)")]},
